@@ -1,4 +1,5 @@
 import Votca.Model.C10
+import Votca.Model.C10R
 /-! line-protocol handler for C10: replays the interleaving of the real ProgObserver processes on the model and judges the
 clauses (assigned once, nothing lost, results kept, lock exclusive, one complete copy at the crash point) on the trace itself -/
 namespace Driver.C10
@@ -128,9 +129,148 @@ def handleRun (args : List String) : Verdict :=
     | _, _, _, _ => bad "run header"
   | _ => bad "run arity"
 
+/-! ## restart scenarios: job file with a history, restart patterns, maxjobs (model `Votca.C10R`) -/
+namespace R
+open Votca.C10R
+
+structure RS where
+  s : C10R.S
+  inits : Nat → Nat
+  err : Option String
+
+def cfgOf (cache maxjobs pat : Nat) : Cfg :=
+  { cache := cache, maxjobs := maxjobs,
+    hosts := if pat == 1 then [100] else if pat == 3 then [101] else if pat == 4 then [100, 101] else [],
+    stats := if pat == 2 || pat == 3 then [C10R.Status.failed] else [] }
+
+def histOf (k : Nat) : C10R.Job :=
+  match k with
+  | 1 => ⟨.complete, some 100, some 100, none⟩
+  | 2 => ⟨.complete, some 101, some 101, none⟩
+  | 3 => ⟨.failed, some 100, none, some 100⟩
+  | 4 => ⟨.assigned, some 101, none, none⟩
+  | _ => ⟨.avail, none, none, none⟩
+
+def failsRule (on : Bool) (p j : Nat) : Bool := on && (p + j) % 4 == 0
+
+def stepP (cfg : Nat → Cfg) (fr : Nat → Nat → Bool) (J : Nat) (r : RS) (p : Nat) (what : String) : RS :=
+  match r.err with
+  | some _ => r
+  | none => match C10R.step cfg fr J r.s p with
+    | some s' => { r with s := s' }
+    | none => { r with err := some s!"model: process {p} cannot take the step for '{what}' (lock held by {r.s.lock})" }
+
+def toWantLock (cfg : Nat → Cfg) (fr : Nat → Nat → Bool) (J : Nat) (r : RS) (p : Nat) (what : String) : RS :=
+  let r1 := if (r.s.proc p).pc == C10R.PC.unlocked then stepP cfg fr J r p what else r
+  match r1.err with
+  | some _ => r1
+  | none =>
+    if (r1.s.proc p).pc == C10R.PC.idle then
+      (if (r1.s.proc p).cache.isEmpty then stepP cfg fr J r1 p what
+       else { r1 with err := some s!"model: process {p} still has cached jobs {(r1.s.proc p).cache} but the trace shows a synchronisation" })
+    else r1
+
+def expect (r : RS) (p : Nat) (pc : C10R.PC) (what : String) : RS :=
+  match r.err with
+  | some _ => r
+  | none => if (r.s.proc p).pc == pc then r else { r with err := some s!"model: process {p} is at {repr (r.s.proc p).pc} when the trace shows '{what}'" }
+
+def replay (cfg : Nat → Cfg) (fr : Nat → Nat → Bool) (J : Nat) (hist : Nat → C10R.Job) (evs : List Ev) : RS :=
+  evs.foldl (fun r ev =>
+    let p := ev.p
+    let w := s!"{p}:{ev.what}"
+    if ev.what.startsWith "exit" || ev.what.startsWith "exc" || ev.what == "fin" then r
+    else if ev.what.startsWith "h20" || ev.what.startsWith "h21" || ev.what == "h10" then r
+    else if r.inits p > 0 then
+      -- InitFromProgFile: lock, LOAD_JOBS, back-up, release: the process starts from what the job file holds at that moment
+      if ev.what == "h16" then { r with inits := C10R.upd r.inits p 0, s := C10R.setP r.s p { r.s.proc p with mem := r.s.disk } } else r
+    else if ev.what == "h11" then stepP cfg fr J (expect (toWantLock cfg fr J r p w) p .wantLock w) p w
+    else if ev.what == "h12" then stepP cfg fr J (expect r p .locked w) p w
+    else if ev.what == "h13" then stepP cfg fr J (expect r p .merged w) p w
+    else if ev.what == "h14" then stepP cfg fr J (expect r p .backedUp w) p w
+    else if ev.what == "h15" then stepP cfg fr J (expect r p .assignedSt w) p w
+    else if ev.what == "h16" then stepP cfg fr J (expect r p .written w) p w
+    else if ev.what.startsWith "x" then
+      let j := (ev.what.drop 1).toString.toNat?.getD 0
+      let r1 := if (r.s.proc p).pc == C10R.PC.unlocked then stepP cfg fr J r p w else r
+      let r2 := match r1.err with
+        | some _ => r1
+        | none => if (r1.s.proc p).pc == C10R.PC.idle && (r1.s.proc p).cache.head? == some j then r1
+                  else { r1 with err := some s!"model: process {p} (cache {(r1.s.proc p).cache}) does not hand out job {j}" }
+      stepP cfg fr J (stepP cfg fr J r2 p w) p w
+    else r) { s := C10R.init hist, inits := fun _ => 1, err := none }
+
+def statusName : C10R.Status → String
+  | .avail => "AVAILABLE" | .assigned => "ASSIGNED" | .complete => "COMPLETE" | .failed => "FAILED"
+
+def hostTok (h : Option Nat) : String := match h with | none => "-" | some 100 => "old:1" | some 101 => "old:2" | some k => s!"p{k}"
+def outTok (h : Option Nat) : String := match h with | none => "-" | some 100 => "old1" | some 101 => "old2" | some k => toString k
+def errTok (h : Option Nat) : String := match h with | none => "-" | some 100 => "eold1" | some 101 => "eold2" | some k => s!"f{k}"
+
+def recTok (j : Nat) (jb : C10R.Job) : String := s!"{j};{statusName jb.status};{hostTok jb.host};{outTok jb.out};{errTok jb.err}"
+
+def takeTriples : Nat → List String → Option (List (Nat × Nat × Nat) × List String)
+  | 0, l => some ([], l)
+  | k + 1, a :: b :: c :: rest => do
+    let x ← a.toNat?; let y ← b.toNat?; let z ← c.toNat?
+    let (m, r) ← takeTriples k rest
+    pure ((x, y, z) :: m, r)
+  | _, _ => none
+
+def handleRRun (args : List String) : Verdict :=
+  (do
+    match args with
+    | ps :: js :: fr :: "|" :: rest =>
+      let P ← ps.toNat?; let J ← js.toNat?
+      let (cfgs, r1) ← takeTriples P rest
+      if r1.head? != some "|" then none else
+      let kinds := (r1.tail.takeWhile (· != "|")).filterMap String.toNat?
+      if kinds.length != J then none else
+      let r2 := (r1.tail.dropWhile (· != "|")).drop 1
+      let evToks := r2.takeWhile (· != "|")
+      let r3 := (r2.dropWhile (· != "|")).drop 1
+      let evs : List Ev := evToks.filterMap parseEv
+      let cfg : Nat → Cfg := fun p => match cfgs[p]? with | some (c, m, pt) => cfgOf c m pt | none => cfgOf 1 1000 0
+      let hist : Nat → C10R.Job := fun j => histOf (kinds.getD j 0)
+      let frule := failsRule (fr == "1")
+      let stuck := evToks.contains "STUCK"
+      let excs : List Ev := evs.filter fun (e : Ev) => e.what.startsWith "exc"
+      let execs : List (Nat × Nat) := evs.filterMap fun (e : Ev) => if e.what.startsWith "x" then (e.what.drop 1).toString.toNat?.map (fun j => (e.p, j)) else none
+      let r := replay cfg frule J hist evs
+      let finals := r3.drop 1
+      let modelFinal := (List.range J).map fun j => recTok j (r.s.disk j)
+      let agree := r.err.isNone && r.s.execLog == execs && modelFinal == finals
+      -- the clauses, on the trace and the final file only
+      -- (1) results kept: an executed job carries exactly what its last executor reported; an untouched job its historical record
+      let specFinal := (List.range J).map fun j =>
+        match (execs.filter fun (q : Nat × Nat) => q.2 == j).getLast? with
+        | some (p, _) => recTok j (C10R.report frule p j ⟨.assigned, some p, none, none⟩)
+        | none => recTok j (hist j)
+      let resultOk := specFinal == finals
+      -- (2) a job is (re)started only when AVAILABLE or named by the executor's restart pattern (history, or a failure of this run)
+      let restartOk := execs.zipIdx.all fun ((p, j), i) =>
+        let earlier := (execs.take i).filter fun (q : Nat × Nat) => q.2 == j
+        match earlier.getLast? with
+        | none => C10R.startable (cfg p) (hist j)
+        | some (q, _) => frule q j && (cfg p).stats.contains C10R.Status.failed
+      -- (3) maxjobs
+      let maxOk := (List.range P).all fun p => (execs.filter fun (q : Nat × Nat) => q.1 == p).length ≤ (cfg p).maxjobs
+      -- (4) nothing lost: with a process without job limit every AVAILABLE job runs
+      let unlimited := (List.range P).any fun p => (cfg p).maxjobs ≥ 1000
+      let allDone := !unlimited || (List.range J).all fun j => kinds.getD j 0 != 0 || execs.any fun (q : Nat × Nat) => q.2 == j
+      let ok := !stuck && excs.isEmpty && resultOk && restartOk && maxOk && allDone
+      let msg : String := if ok then (r.err.getD s!"model final {modelFinal} / executions {r.s.execLog} differ from the run: {finals} / {execs}")
+                    else s!"C10-RESTART stuck={stuck} exceptions={excs.length} resultsKept={resultOk} restartExactly={restartOk} maxjobs={maxOk} noneLost={allDone} expected={specFinal} file={finals} executed={execs}"
+      let tag : String := s!"rrun:P{P}:{if fr == "1" then "failures" else "nofail"}:{if cfgs.any (fun c => c.2.2 != 0) then "pattern" else "nopattern"}:{if cfgs.any (fun c => c.2.1 < 1000) then "maxjobs" else "nolimit"}"
+      some ({ agree := agree, propOk := ok, msg := msg, tag := tag } : Verdict)
+    | _ => none).getD (bad "rrun fields")
+
+end R
+
 def handle (args : List String) : Verdict :=
   match args with
   | "run" :: r => handleRun r
+  | "rrun" :: r => R.handleRRun r
   | _ => bad "unknown op"
 
 end Driver.C10
